@@ -67,6 +67,7 @@ def execute(case):
         if isinstance(base, str):
             base = BASES[base]
         s.begin(base, case.get("base_side", 0))
+        s.project_state = bool(case.get("project_state"))
         if case.get("_mangle"):
             kind, sides = case["_mangle"]
             if kind == "walk":           # a full walk of both roots is queued before every intake (replayed tree)
